@@ -144,3 +144,9 @@ pub fn __vec_drain_front(v: &mut Vec<u64>, d: usize)
     requires d <= old(v)@.len()
     ensures final(v)@ == old(v)@.subrange(d as int, old(v)@.len() as int)
 { unimplemented!() }
+
+//@ assume __last_is_zero : rule R12n: semantics of the pattern `Some(&0) = v.last()`: v is non-empty and its last element is 0
+#[verifier::external_body]
+pub fn __last_is_zero(v: &Vec<u8>) -> (r: bool)
+    ensures r == (v@.len() > 0 && v@[v@.len() - 1] == 0)
+{ unimplemented!() }
